@@ -204,6 +204,14 @@ class ExprMixin:
     def lookup_name(self, name, fr):
         if name in fr.env:
             return fr.env[name]
+        if fr.func is None and fr.defcls is not None:
+            # the body of a class statement (a class level constant defined from an earlier one): names of that class body first
+            v = fr.defcls.class_vars.get(name) if hasattr(fr.defcls, 'class_vars') else None
+            if v is not None:
+                from .model import VarRef
+                ref = fr.defcls.resolve_var(name)
+                if ref is not None:
+                    return self.eval_var(ref)
         r = self.model.resolve_name(fr.module, name)
         if r is None:
             return Unknown('name %s' % name)
